@@ -90,10 +90,24 @@ def run_seed(prop, seed: int, tier: str, known: Dict[Tuple, str], want_case: boo
     return res
 
 
+_FROZEN = False
+
+
+def _freeze_heap() -> None:
+    """Move everything allocated so far (imports, corpora) to the permanent generation so that the
+    scheduled gc.collect() calls of the simulation only scan objects created by the runs themselves."""
+    global _FROZEN
+    if not _FROZEN:
+        gc.collect()
+        gc.freeze()
+        _FROZEN = True
+
+
 def _chunk(pid: str, seeds: List[int], tier: str, sample_first: bool, timeout_s: float) -> List[Dict[str, Any]]:
     faulthandler.dump_traceback_later(timeout_s, exit=True)
     try:
         prop = load_prop(pid)
+        _freeze_heap()
         known = findings.load(pid)
         out = []
         for k, s in enumerate(seeds):
